@@ -141,10 +141,11 @@ def typed_grammar(depth):
     S = st.sampled_from([["emptyset"], ["universalset"], ["reals"], ["rationals"], ["integers"]])
     # floor / ceiling / truncate of an infinite or NaN double kill the process (KF-C18-03: mpz_set_d raises SIGFPE); building
     # the object is not what C19 tests, so these three are applied to symbolic arguments only (ROUND below)
-    fun1 = [f for f in pools.FUN1 if f not in ("floor", "ceiling", "truncate")] + ["primorial", "digamma", "trigamma", "lambertw",
-                                                                                   "dirichlet_eta"]
+    # (primepi / primorial call floor)
+    fun1 = [f for f in pools.FUN1 if f not in ("floor", "ceiling", "truncate", "primepi")] + ["digamma", "trigamma", "lambertw",
+                                                                                              "dirichlet_eta"]
     rounding = st.builds(lambda o, x, k, q: [o, ["add", ["mul", ["rational", k, q], x], ["symbol", "t"]]],
-                         st.sampled_from(["floor", "ceiling", "truncate"]), xs, st.integers(1, 9), st.integers(2, 7))
+                         st.sampled_from(["floor", "ceiling", "truncate", "primepi", "primorial"]), xs, st.integers(1, 9), st.integers(2, 7))
     for _ in range(depth):
         e, bo, s = E, Bo, S
         lst = lambda t, lo, hi: st.lists(t, min_size=lo, max_size=hi).map(lambda v: ["list"] + v)
@@ -413,16 +414,16 @@ class C19(Check):
             raise Violation("double bit patterns changed by the round trip: before=%s after=%s (e=%s)" % (res[k + 5], res[k + 6], res[k + 11]))
         if self_eq and res[k + 13] != res[k + 14]:
             raise Violation("hash changed by the round trip: e=%s" % res[k + 11])
-        before = {x[0]: (x[1], x[2]) for x in res[k + 7]}
-        after = {x[0]: (x[1], x[2]) for x in res[k + 8]}
+        before = {x[0]: (x[1], x[2], x[3]) for x in res[k + 7]}
+        after = {x[0]: (x[1], x[2], x[3]) for x in res[k + 8]}
         shared = False
-        for key, (nobj, nref) in before.items():
+        for key, (nobj, nref, text) in before.items():
             if key not in after:
-                raise Violation("node class %r of e is missing after the round trip (e=%s)" % (key, res[k + 11]))
+                raise Violation("node %r (%s) of e is missing after the round trip (e=%s)" % (key, text, res[k + 11]))
             if after[key][0] > nobj:
-                raise Violation("sharing lost: value %r is %d object(s) referenced %d times in e but %d objects after loads (e=%s)"
-                                % (key, nobj, nref, after[key][0], res[k + 11]))
-            if nref > nobj and not is_singleton_key(key):
+                raise Violation("sharing lost: value %r (%s) is %d object(s) referenced %d times in e but %d objects after loads (e=%s)"
+                                % (key, text, nobj, nref, after[key][0], res[k + 11]))
+            if nref > nobj and not is_singleton_key(text):
                 shared = True
         l2 = res[k + 10]
         if is_exc(res[k + 9]) or is_exc(l2):
@@ -501,10 +502,9 @@ class C19(Check):
             self.sample({"case": case})
 
 
-def is_singleton_key(key):
-    """share_classes key '<type code>:<hash>:<str>' of library singletons (small integers, constants, booleans...):
-    references to them are shared before and after by construction"""
-    s = key.split(":", 2)[2]
+def is_singleton_key(s):
+    """printed form of library singletons (small integers, constants, booleans...): references to them are shared before
+    and after by construction"""
     return s in ("0", "1", "-1", "2", "1/2", "-1/2", "pi", "E", "I", "oo", "-oo", "zoo", "nan", "True", "False", "EulerGamma",
                  "Catalan", "GoldenRatio", "Reals", "Integers", "Rationals", "EmptySet", "UniversalSet", "Naturals", "Naturals0",
                  "Complexes")
